@@ -215,7 +215,7 @@ PROPS["C13"] = {
     "assumptions": ["NAT hops are the library's sim::nat placed as last hop of a node's outgoing route"],
 }
 
-_OPS_RULE = ("cases = the complete product (base scenario) x (event boundary k, every k in the thorough tier, every 3rd in quick) x (participating object) x "
+_OPS_RULE = ("cases = the complete product (base scenario) x (event boundary k, every k in the thorough tier, every 6th in quick) x (participating object) x "
              "(cancel, close, destroy, supersede with a same-kind operation, move-construct then destroy the source) plus one 'throw from the next handler' per boundary; "
              "15 base scenarios cover timer waits, TCP connect (to listener / to nothing), read, write blocked on the window, wait-for-read, the three accept overloads "
              "(client present / later / never), UDP receive_from / receive / wait_read / deferred wait_write, TCP and UDP resolvers, and bulk transfers through lossy hops "
@@ -232,8 +232,8 @@ PROPS["C04"] = {
     },
     "rule": _OPS_RULE,
     "jobs": [{"engine": "ops"}],
-    "require": {"quick": {"hit_pending_operation:tcp.socket:cancel": 500, "hit_pending_operation:tcp.acceptor:destroy": 100, "hit_pending_operation:udp.socket:close": 50,
-                          "hit_pending_operation:resolver:destroy": 20, "hit_pending_operation:timer:cancel": 10, "applied:supersede": 1000},
+    "require": {"quick": {"hit_pending_operation:tcp.socket:cancel": 250, "hit_pending_operation:tcp.acceptor:destroy": 50, "hit_pending_operation:udp.socket:close": 25,
+                          "hit_pending_operation:resolver:destroy": 10, "hit_pending_operation:timer:cancel": 5, "applied:supersede": 500},
                 "thorough": {"hit_pending_operation:tcp.socket:cancel": 1500}},
     "assumptions": ["the 'never inline' and 'at most once' monitors also run inside every other engine (reported there under C04)"],
     "timeout": {"quick": 1500, "thorough": 14400},
@@ -250,8 +250,43 @@ PROPS["C12"] = {
     "rule": _OPS_RULE,
     "jobs": [{"engine": "ops"},
              {"name": "ndebug", "engine": "ops", "variant": "asan-ndebug", "tiers": ("thorough",)}],
-    "require": {"quick": {"applied:destroy": 3000, "applied:close": 3000, "applied:move-then-destroy-source": 200, "exceptions_propagated": 1000},
+    "require": {"quick": {"applied:destroy": 1500, "applied:close": 1500, "applied:move-then-destroy-source": 100, "exceptions_propagated": 500},
                 "thorough": {"applied:destroy": 10000}},
     "assumptions": ["bystanders run on their own nodes and route so nothing the target does can legitimately affect them"],
+    "timeout": {"quick": 1500, "thorough": 14400},
+}
+
+PROPS["C19"] = {
+    "level": "exploration",
+    "claim": {
+        "technique": "runtime monitoring: the capture file is re-read after the simulation is destroyed by an independent pcap parser and compared record by record with the on-wire probe log; valgrind memcheck for uninitialised bytes reaching the file",
+        "text": "Programs with 1-3 TCP connections in both directions over lossy routes (retransmissions, closes) and UDP datagrams up to 65507 bytes among IPv4 nodes. Global header, per-record lengths, IP/UDP/TCP header fields, non-decreasing timestamps equal to epoch + virtual send time, true addresses and ports, payload bytes, one-to-one in-order correspondence with the transmissions the probes saw, per-direction sequence numbers starting at 0 and advancing by the bytes transmitted. A subset runs under memcheck with --error-exitcode.",
+        "note": "Extra zero-payload TCP records are tolerated; IPv4 only, as the statement says; unique 4-tuples per connection.",
+        "ref": "DESIGN.md 3/C19",
+    },
+    "rule": "cases = generated programs (2-4 IPv4 nodes, lossy or loss-free routes, 1-3 TCP connections with random lengths/closes, 0-3 UDP sockets exchanging up to 25 datagrams). "
+            "Non-trivial = every program (each writes a capture that is fully checked); distinct = distinct program descriptors.",
+    "jobs": [{"engine": "pcap", "args": {"n": T(1200, 60000)}},
+             {"name": "memcheck", "engine": "pcap", "variant": "plain", "args": {"n": T(4, 40)}, "chunks": 40,
+              "wrap": ["valgrind", "-q", "--error-exitcode=9", "--track-origins=no"]}],
+    "require": {"quick": {"tcp_payload_records_verified": 50000, "udp_records_verified": 5000, "programs_with_retransmission": 300, "closing_segments": 1000},
+                "thorough": {"tcp_payload_records_verified": 2000000}},
+    "assumptions": ["the probe that is the first hop of every outgoing route sees exactly the packets put on the wire, in order"],
+}
+
+PROPS["C01"] = {
+    "level": "exploration",
+    "claim": {
+        "technique": "runtime monitoring by differential replay: each generated program is executed in 10-11 separate processes under perturbed environments and the complete canonical trace and the capture file are compared by digest; valgrind memcheck for uninitialised flows",
+        "text": "Programs mix timers (ties, re-arming, cancel), TCP transfers through lossy finite queues, UDP bursts, resolver lookups, a NAT hop and capture logging, with all generator decisions drawn in handler execution order so a divergence amplifies. Environments: glibc MALLOC_PERTURB_ 0x55/0xAA/seed, ASLR off + large environment block + heap ballast, ASLR on + different ballast, 1-3 unrelated simulations run first in the same process, an LD_PRELOAD shim answering every wall-clock query with skewed time, the step hook absent (plain poll()), the ASan allocator, and memcheck.",
+        "note": "'Whatever the environment' is sampled over this finite set; dump_network_graph output (prints pointers) and library printf chatter are not part of the trace.",
+        "ref": "DESIGN.md 3/C01",
+    },
+    "rule": "cases = generated programs, each executed once per environment (separate processes); trace = every completion (virtual time, kind, error, byte counts, endpoints, payload hash, stream positions) + run() result. "
+            "Non-trivial = every program; distinct = distinct program descriptors.",
+    "jobs": [{"name": "replay", "py": "c01", "engine": "pcap", "variant": "plain", "args": {"n": T(48, 1500), "memcheck": T(2, 12)}}],
+    "require": {"quick": {"environment_runs": 400, "trace_events_per_reference_run": 2000, "memcheck_runs": 2},
+                "thorough": {"environment_runs": 14000}},
+    "assumptions": ["determinism is compared between processes of the same binary or of two builds of the same sources (plain vs ASan)"],
     "timeout": {"quick": 1500, "thorough": 14400},
 }
